@@ -67,6 +67,7 @@ type handler struct {
 	used     int
 	perStore int
 	ns       string // namespace of the behaviour being replayed
+	shape    int    // rotates the concrete shape of "no value under this path"
 }
 
 func (h *handler) path(f string) string  { return h.ns + "." + f }
@@ -272,7 +273,63 @@ func (h *handler) buildDoc(v map[string]interface{}) (map[string]interface{}, er
 		}
 		cur[parts[len(parts)-1]] = val
 	}
+	h.absentShapes(doc, v)
 	return doc, nil
+}
+
+// absentShapes concretises "the document carries no value under path p" (KVIndex.tla: p is not in
+// the domain of the document). In a real document that has several shapes: the step above the last
+// one is missing, holds an empty map, holds a map with other keys, or holds a scalar - a text or a
+// number of the term universe, so that an index that takes the scalar for the value of p collides
+// with the terms the queries probe. The shape rotates with a counter; steps that a carried path
+// occupies are left alone.
+func (h *handler) absentShapes(doc map[string]interface{}, v map[string]interface{}) {
+	var text, number interface{} = "a", float64(1)
+	for _, t := range h.terms {
+		if val, err := h.termValue(t); err == nil {
+			if t[0] == "s" {
+				text = val
+			} else {
+				number = val
+			}
+		}
+	}
+	paths := append([]string{}, h.fields...)
+	sort.Strings(paths)
+	for _, path := range paths {
+		if _, carried := v[path]; carried {
+			continue
+		}
+		parts := strings.Split(h.path(path), ".")
+		cur, free := doc, true
+		for _, p := range parts[:len(parts)-2] {
+			nxt, isMap := cur[p].(map[string]interface{})
+			if !isMap {
+				if _, exists := cur[p]; exists {
+					free = false
+					break
+				}
+				nxt = map[string]interface{}{}
+				cur[p] = nxt
+			}
+			cur = nxt
+		}
+		step := parts[len(parts)-2]
+		if _, exists := cur[step]; exists || !free {
+			continue
+		}
+		h.shape++
+		switch h.shape % 5 {
+		case 1:
+			cur[step] = text
+		case 2:
+			cur[step] = number
+		case 3:
+			cur[step] = map[string]interface{}{}
+		case 4:
+			cur[step] = map[string]interface{}{"other": text}
+		}
+	}
 }
 
 // ---------------------------------------------------------------- queries with deadlines
